@@ -282,7 +282,13 @@ class AbstractDateTime(AnyAtomicType):
             raise TypeError("wrong type %r for operand %r" % (type(other), other))
 
         if self._year != year and not (1 <= self._year <= 9999 and 1 <= year <= 9999):
-            return op(self._year, year)
+            y1, y2 = self._year + (self._year < 0), year + (year < 0)
+            if abs(y1 - y2) > 1:
+                return op(self._year, year)
+            # adjacent years: timezones can swap the order, compare on proxy years
+            proxy = 4 if isleap(min(y1, y2)) else 7 if isleap(max(y1, y2)) else 5
+            return op(*get_comparable_datetimes(self._dt.replace(year=proxy + (y1 > y2)),
+                                                dt.replace(year=proxy + (y2 > y1))))
         elif self._dt.tzinfo is dt.tzinfo:
             return op(self._dt, dt)
         elif self.tzinfo is None:
